@@ -170,7 +170,7 @@ func c11CheckAll(o geojson.Object) (fails [][3]string) {
 
 // c11Objects builds every kind from one position sequence.
 func c11Objects(ps []geometry.Point) []geojson.Object {
-	var out []geojson.Object
+	var out, forced []geojson.Object
 	if len(ps) == 1 {
 		out = append(out, geojson.NewPoint(ps[0]), geojson.NewSimplePoint(ps[0]), geojson.NewPointZ(ps[0], 1), geojson.NewFeature(geojson.NewPoint(ps[0]), ""))
 	}
@@ -203,6 +203,18 @@ func c11Objects(ps []geometry.Point) []geojson.Object {
 			out = append(out, geojson.NewMultiPolygon([]*geometry.Poly{newPolyScribbled(ps[:3], nil, nil), newPolyScribbled(ps, nil, nil)}))
 		}
 	}
+	// series that occupy no space under a forced index (appended after the
+	// existing objects: known findings refer to objects by index)
+	if len(ps) >= 1 {
+		for _, k := range []geometry.IndexKind{geometry.RTree, geometry.QuadTree} {
+			fo := &geometry.IndexOptions{Kind: k, MinPoints: 1}
+			forced = append(forced, geojson.NewLineString(newLineScribbled(ps[:1], fo)))
+			if len(ps) >= 2 {
+				forced = append(forced, geojson.NewPolygon(newPolyScribbled(ps[:2], nil, fo)))
+				forced = append(forced, geojson.NewMultiLineString([]*geometry.Line{newLineScribbled(ps[1:2], fo), newLineScribbled(ps, fo)}))
+			}
+		}
+	}
 	// objects derived from other objects: translated copies (appended last:
 	// known findings refer to objects by index)
 	for _, d := range [][2]float64{{0, 0}, {1, -2}, {0.1, 0.3}} {
@@ -213,7 +225,7 @@ func c11Objects(ps []geometry.Point) []geojson.Object {
 			out = append(out, geojson.NewMultiPolygon([]*geometry.Poly{hole}))
 		}
 	}
-	return out
+	return append(out, forced...)
 }
 
 func runC11(r *rt.Run) {
